@@ -383,6 +383,10 @@ pub fn gen_replicas(prop: &str, r: &mut Prng, seed: u64, run: u64, thorough: boo
             // one text replica in eight: hp.obo without a header block (derived, not drawn: the other draws keep their values)
             s.text.no_obo_header = mix2(s.text.ign_seed, 0x0B0) % 8 == 0;
         }
+        if p == PathKind::TextTransitive && mix2(s.text.ign_seed, 0x7A) % 3 == 0 {
+            // a gene file that is not closed under ancestors
+            s.text.trans_partial = Some(mix2(s.text.ign_seed, 0x7B));
+        }
         replicas.push(s);
     }
     if !huge && !replicas.iter().any(|x| x.uses_text()) && r.chance(1, 3) {
@@ -519,8 +523,8 @@ pub fn exec_replicas(ctx: &mut Ctx, s: &Scenario) -> Outcome {
                     }
                     // a history on one ontology value: both groups are overwritten through the public `*_mut()` accessors, then
                     // the default setters are called again (in either order) — the same classification as after building
-                    if r.chance(1, 6) {
-                        let mut o2: Ontology = (**o).clone();
+                    // (built a second time rather than cloned: cloning copies the whole 10^7-slot id table)
+                    if let Some(mut o2) = if r.chance(1, 3) { build(ctx, f, spec).into_ok() } else { None } {
                         let ids: Vec<u32> = pf.terms.iter().map(|t| t.id).collect();
                         let mut junk = |r: &mut Prng| -> Vec<u32> {
                             let mut v: Vec<u32> = (0..r.urange(0, 3)).map(|_| *r.pick(&ids)).collect();
